@@ -1,6 +1,8 @@
 import NodisVerif.Driver.CodecOps
 import NodisVerif.Driver.ApiOps
 import NodisVerif.Driver.RespOps
+import NodisVerif.Model.Handler2
+import NodisVerif.Model.Handler3
 import NodisVerif.Driver.FragOps
 open NodisVerif
 
@@ -22,7 +24,7 @@ def annotations (toks : List String) : List String × Int × Option (List Bytes)
     (((t.drop 7).toString.splitOn ",").filter (· ≠ "")).filterMap Wire.parseArg
   (plain, now, choice)
 
-def tables : List (String → List Bytes → Option HRes) := [Handler.table1]
+def tables : List (String → List Bytes → Option HRes) := [Handler.table1, Handler2.table2, Handler3.table3]
 
 def step (d : DState) (line : String) : DState × String :=
   let toks := Wire.splitWs line.trimAscii.toString
@@ -43,6 +45,7 @@ def step (d : DState) (line : String) : DState × String :=
     | ["gc"] => (d.put (Store.gc s now), "ok")
     | ["flush"] => (d.put (Store.flush s now), "ok")
     | ["sleep", _] => (d, "ok")
+    | ["failset", k] => (d.put { s with failSet := k.toNat?.getD 0 }, "ok")
     | ["dump"] => (d, Driver.dumpState s)
     | ["ldump"] => (d, Driver.dumpState s (some now))
     | "api" :: method :: rest =>
